@@ -47,6 +47,7 @@ func main() {
 	write("Autosave.lean", genAutosave())
 	write("AdminGate.lean", genAdminGate())
 	write("ProxyCount.lean", genProxyCount())
+	write("ActiveVerdict.lean", genActiveVerdict())
 	write("Encode.lean", genEncode())
 	write("ProxyFlush.lean", genProxyFlush())
 	write("Sidecar.lean", genSidecar())
@@ -58,6 +59,8 @@ func main() {
 	write("FmtCmd.lean", genFmtCmd())
 	write("Resume.lean", genResume())
 	write("ChangeConfig.lean", genChangeConfig())
+	write("LoadEndpoint.lean", genLoadEndpoint())
+	write("CAStorage.lean", genCAStorage())
 	write("HostMatcherWrites.lean", genHostMatcherWrites())
 	write("MapRanges.lean", genMapRanges())
 	write("ReplacerTree.lean", genReplacerTree())
@@ -66,6 +69,8 @@ func main() {
 	write("RouteCompile.lean", genRouteCompile())
 	write("LogWriterCloses.lean", genLogWriterCloses())
 	write("UsagePoolClients.lean", genUsagePoolClients())
+	write("RequestPaths.lean", genRequestPaths())
+	write("StdAppsOrder.lean", genStdAppsOrder())
 
 	// typed scan, cached by content hash of the scanned sources
 	h := hashTree(repo)
@@ -85,9 +90,9 @@ func main() {
 	}
 	// regenerate unless the scanned sources AND the file on disk are what the cache entry was made from
 	// (another run against a scratch tree may have rewritten the shared file in between)
-	if sum := fileSum(); sum == "" || cache["logsites"] != h || cache["repo"] != repo || cache["out"] != sum {
+	if sum := fileSum(); sum == "" || cache["logsites"] != h+logSitesVersion || cache["repo"] != repo || cache["out"] != sum {
 		write("LogSites.lean", genLogSites())
-		cache["logsites"], cache["repo"], cache["out"] = h, repo, fileSum()
+		cache["logsites"], cache["repo"], cache["out"] = h+logSitesVersion, repo, fileSum()
 		if *cacheFile != "" {
 			b, _ := json.Marshal(cache)
 			os.WriteFile(*cacheFile, b, 0o644)
@@ -354,7 +359,12 @@ func genConsts() string {
 	var sb strings.Builder
 	sb.WriteString(header)
 	_, mf := parseFile("modules/caddyhttp/matchers.go")
-	v, ok := greaterThanConst(findFunc(mf, "MatchHost", "large"), "len(m)")
+	largeFn := findFunc(mf, "MatchHost", "large")
+	largeRecv := "m" // the receiver's own name, whatever it is called (C11: not tied to a local name)
+	if largeFn != nil && largeFn.Recv != nil && len(largeFn.Recv.List) == 1 && len(largeFn.Recv.List[0].Names) == 1 {
+		largeRecv = largeFn.Recv.List[0].Names[0].Name
+	}
+	v, ok := greaterThanConst(largeFn, "len("+largeRecv+")")
 	sb.WriteString("/-- `MatchHost.large`: lists longer than this use the binary-search fast path (matchers.go) -/\n")
 	sb.WriteString("def matchHostLargeThreshold : Option Nat := " + optNat(v, ok) + "\n\n")
 
@@ -1198,6 +1208,9 @@ func hashTree(dir string) string {
 	return hex.EncodeToString(h.Sum(nil))
 }
 
+// bumped whenever genLogSites changes what it emits (part of the cache key of the typed scan)
+const logSitesVersion = "/v2-census"
+
 type logSite struct {
 	where string // pkg.func
 	key   string
@@ -1278,8 +1291,16 @@ func genLogSites() string {
 						if bl, ok := ce.Args[0].(*ast.BasicLit); ok {
 							key, _ = strconv.Unquote(bl.Value)
 						}
+						n0 := len(sites)
 						for _, arg := range ce.Args[1:] {
-							sites = append(sites, classify(pkg, fd, where, key, arg)...)
+							got := classify(pkg, fd, where, key, arg)
+							if len(got) == 0 {
+								got = viaVarSites(pkg, fd, where, key, arg)
+							}
+							sites = append(sites, got...)
+						}
+						if strings.Contains(pkg.PkgPath, "/modules/caddyhttp") {
+							censusCall(pkg, where, se.Sel.Name, key, ce.Args[1:], len(sites)-n0)
 						}
 						return true
 					}
@@ -1310,7 +1331,7 @@ func genLogSites() string {
 	})
 	var sb strings.Builder
 	sb.WriteString(header)
-	sb.WriteString("/-- every zap field constructor call under modules/caddyhttp/... one of whose arguments is, or is\n    computed from, an http.Request / http.Header / http.Response / cookies (typed scan, go/types):\n    (package, function, field key, kind). kind = `wrapped` (LoggableHTTPRequest/LoggableHTTPHeader with credentials\n    off by default), `wrappedcred:<expr>` (the ShouldLogCredentials expression), `headerget:<name>` (a single\n    named header value), `raw:<type>` (anything else). -/\n")
+	sb.WriteString("/-- every zap field constructor call under modules/caddyhttp/... one of whose arguments is, or is\n    computed from, an http.Request / http.Header / http.Response / cookies (typed scan, go/types):\n    (package, function, field key, kind). kind = `wrapped` (LoggableHTTPRequest/LoggableHTTPHeader with credentials\n    off by default), `wrappedcred:<expr>` (the ShouldLogCredentials expression), `headerget:<name>` (a single\n    named header value), `viavar:<kind>:<helper>` (a local variable assigned from header material, one data-flow step),\n    `raw:<type>` (anything else). -/\n")
 	var inScope, elsewhere []logSite
 	for _, s := range sites {
 		if httpPkgs[s.pkg()] {
@@ -1333,6 +1354,7 @@ func genLogSites() string {
 	emit("logSites", inScope)
 	sb.WriteString("/-- the same scan over every OTHER package of the module (core, cmd, caddytls, caddypki, logging, …): sites that log\n    request/response/header material outside the HTTP server's access, error and reverse-proxy debug logs -/\n")
 	emit("logSitesElsewhere", elsewhere)
+	emitCensus(&sb)
 	sb.WriteString("/-- the typed scan loaded and type-checked every package without error -/\n")
 	sb.WriteString("def logSitesScanComplete : Bool := " + strconv.FormatBool(loadOK && len(pkgs) > 0) + "\n")
 	sb.WriteString(footer)
@@ -2247,6 +2269,9 @@ func genGlue() string {
 		sb.WriteString("def httpServerContextFields : List String := " + leanStrList(fields) + "\n")
 	}
 
+	// C02 (round h): bind guard of (*App).Start, repeated-address key of (*App).Validate
+	sb.WriteString(genC02Listen())
+
 	// C16: every directive / global option registered anywhere in the module (non-test files)
 	{
 		var dirs, opts []string
@@ -2303,34 +2328,8 @@ func genGlue() string {
 		sb.WriteString("def registeredGlobalOptions : List String := " + leanStrList(opts) + "\n")
 	}
 
-	// C11: the range statements of automaticHTTPSPhase1
-	{
-		_, f := parseFile("modules/caddyhttp/autohttps.go")
-		fd := findFunc(f, "App", "automaticHTTPSPhase1")
-		var rs []string
-		if fd != nil {
-			ast.Inspect(fd.Body, func(x ast.Node) bool {
-				r, ok := x.(*ast.RangeStmt)
-				if !ok {
-					return true
-				}
-				kind, what := "plain", exprText(r.X)
-				if ce, ok := r.X.(*ast.CallExpr); ok {
-					if se, ok := ce.Fun.(*ast.SelectorExpr); ok && exprText(se.X) == "slices" && se.Sel.Name == "Sorted" && len(ce.Args) == 1 {
-						if in, ok := ce.Args[0].(*ast.CallExpr); ok {
-							if ise, ok := in.Fun.(*ast.SelectorExpr); ok && exprText(ise.X) == "maps" && ise.Sel.Name == "Keys" && len(in.Args) == 1 {
-								kind, what = "sortedkeys", exprText(in.Args[0])
-							}
-						}
-					}
-				}
-				rs = append(rs, "("+leanStr(kind)+", "+leanStr(what)+")")
-				return true
-			})
-		}
-		sb.WriteString("\n/-- modules/caddyhttp/autohttps.go automaticHTTPSPhase1: every `range` statement in source order: (`sortedkeys`, m) for\n    `range slices.Sorted(maps.Keys(m))`, else (`plain`, the ranged expression) -/\n")
-		sb.WriteString("def autoHTTPSRanges : List (String × String) := [" + strings.Join(rs, ", ") + "]\n")
-	}
+	// C11: the map iterations reachable from automaticHTTPSPhase1 (typed, call-following: c11ranges.go)
+	sb.WriteString(genAutoHTTPSRanges())
 
 	// C07: default index names
 	{
